@@ -125,11 +125,13 @@ def main(argv=None):
 
 
 def setup(ids):
-    """Build everything once (MANIFEST.setup_cmd)."""
+    """Build everything once (MANIFEST.setup_cmd): the drivers and theorem modules of the claimed properties."""
     t0 = time.time()
     core.use_repo()
-    ids = [i.upper() for i in ids] or core.all_prop_ids()
+    ready = json.loads((VERIF / 'ready.json').read_text()) if (VERIF / 'ready.json').exists() else core.all_prop_ids()
+    ids = [i.upper() for i in ids] or ready
     props = [core.load_prop(i) for i in ids]
+    ok_all = True
     with core.build_lock():
         for p in props:
             try:
@@ -137,11 +139,21 @@ def setup(ids):
             except Exception:
                 log(f'translate failed for {p.id}')
                 log(traceback.format_exc())
-        drvs = core.gen_lakefile()
-        ok, out = core.lake_build(['CylcModel'] + [f'drv_{d}' for d in drvs])
-        log(out[-4000:])
-    log(f'setup: build {"ok" if ok else "FAILED"} in {time.time() - t0:.0f}s')
-    return 0 if ok else 2
+        core.gen_lakefile()
+        targets = []
+        for p in props:
+            targets += [f'drv_{p.drv or p.id}'] + list(p.props_modules)
+        ok, out = core.lake_build(sorted(set(targets)))
+        if not ok:
+            # fall back to one property at a time so that one broken module does not block the others
+            for p in props:
+                ok1, out1 = core.lake_build([f'drv_{p.drv or p.id}'] + list(p.props_modules))
+                if not ok1:
+                    ok_all = False
+                    log(f'setup: build FAILED for {p.id}')
+                    log(out1[-2500:])
+    log(f'setup: build {"ok" if ok_all else "FAILED"} in {time.time() - t0:.0f}s')
+    return 0 if ok_all else 2
 
 
 def check(pid, tier, replay_file):
